@@ -252,6 +252,8 @@ def check_codec(ctx):
         if isinstance(n, ast.Assign) and len(n.targets) == 1 and norm_text(n.targets[0]) == 'r':
             t = norm_text(n.value).replace(' ', '')
             ok = t == '[-1]+list(range(len(unique_labels)))'
+            if not ok:
+                ok = _nosite_plus_range(ctx.entry(fd.qualname), n.value, fd.node)
             ctx.ob('R2', fd, n, True if ok else None, 'decoder enumerates NOSITE and every label index' if ok else 'decoder range not recognised')
 
 
@@ -267,7 +269,8 @@ def check_lengths(ctx):
         defs = def_map(f_.node)
         b = defs.get('bins')
         if b is None:
-            ctx.ob('R3', f_, 'bins', None, 'bin edges are not a single assignment')
+            okv = _edges_on_values(ctx, f_)
+            ctx.ob('R3', f_, 'bins', okv, 'edges 0, r, 2r, ... up to at least the cut-off' if okv else 'bin edges are not a single assignment')
             continue
         be = expand(b, defs)
         t = norm_text(be).replace(' ', '')
@@ -279,15 +282,23 @@ def check_lengths(ctx):
                                         '(floating point) multiple of the resolution the last edge lies below the cut-off and pairs within '
                                         'the cut-off fall into the discarded overflow bin')
         else:
-            ctx.ob('R3', f_, b, None, 'construction of the bin edges not recognised')
+            ctx.ob('R3', f_, b, _edges_on_values(ctx, f_), 'construction of the bin edges not recognised')
     length = env.get('length')
     lin = linear(expand(length, def_map(fi.node), keep=('bins',))) if length is not None else None
     ok = lin is not None and lin[0] == {'len(bins)': 1} and lin[1] == 1
-    ctx.ob('R3', fi, length if length is not None else 'length', True if ok else (False if lin is not None else None),
+    vals_ok = None
+    if lin is None:
+        # on values: every bincount is padded to len(edges) + 1, the edges being those of the digitize call
+        vals_ok = _lengths_on_values(ctx, fi)
+    if vals_ok is not None:
+        for node_, st_, msg_ in vals_ok:
+            ctx.ob('R3', fi, node_, st_, msg_)
+    else:
+      ctx.ob('R3', fi, length if length is not None else 'length', True if ok else (False if lin is not None else None),
            'accumulator length = len(bins) + 1 (bins 0..len(bins))' if ok else
            f'accumulator length is `{norm_text(length) if length is not None else "?"}`: np.digitize yields indices up to len(bins), '
            f'the last distance bin is lost or arrays of different length are added')
-    for n in ast.walk(fi.node):
+    for n in ast.walk(fi.node) if vals_ok is None else ():
         if isinstance(n, ast.Call) and norm_text(n.func).endswith('bincount'):
             ml = next((k.value for k in n.keywords if k.arg == 'minlength'), None)
             ok = ml is not None and norm_text(ml) == 'length'
@@ -297,6 +308,9 @@ def check_lengths(ctx):
             ctx.ob('R3', fi, n, True, 'accumulator allocated with the same length')
     ys = [k.value for n in ast.walk(fi.node) if isinstance(n, ast.Call) and norm_text(n.func).endswith('RDFData') for k in n.keywords if k.arg == 'y']
     xs = [k.value for n in ast.walk(fi.node) if isinstance(n, ast.Call) and norm_text(n.func).endswith('RDFData') for k in n.keywords if k.arg == 'x']
+    if not ys:
+        for node_, st_, msg_ in _xy_on_values(ctx, fi):
+            ctx.ob('R3', fi, node_, st_, msg_)
     for y in ys:
         t = norm_text(y).replace(' ', '')
         ok = t == 'values[:-1]' and xs and norm_text(xs[0]) == 'bins'
@@ -323,6 +337,78 @@ def check_lengths(ctx):
             ctx.ob('R3', fs, n, True if ok else None, 'len(x) = len(histogram) = len(bins) - 1')
 
 
+def _edges_on_values(ctx, f_):
+    """True when the edges handed to np.digitize / np.histogram under f_ are np.arange(0, max_dist + resolution, resolution)."""
+    itf = ctx.entry(f_.qualname)
+    evs = uniq_events(itf, {'digitize', 'histogram'}, under(f_.qualname))
+    if not evs:
+        return None
+    for e in evs:
+        ar = e['bins'].arange if e['bins'] is not None else None
+        if not ar or len(ar) != 3:
+            return None
+        start, stop, step = ar
+        isp = lambda v, name: v is not None and bool(v.is_param) and v.is_param.endswith(':' + name)
+        ok = has_const(start) and cval(start) == 0 and isp(step, 'resolution') and stop.bin is not None and stop.bin[0] == '+' and \
+            ((isp(stop.bin[1], 'max_dist') and isp(stop.bin[2], 'resolution')) or (isp(stop.bin[2], 'max_dist') and isp(stop.bin[1], 'resolution')))
+        if not ok:
+            return None
+    return True
+
+
+def _lengths_on_values(ctx, fi):
+    itf = ctx.entry(fi.qualname)
+    digs = uniq_events(itf, {'digitize'}, under(fi.qualname))
+    cnts = uniq_events(itf, {'bincount'}, under(fi.qualname))
+    if not digs or not cnts:
+        return None
+    edges = digs[0]['bins']
+    out = []
+    for e in cnts:
+        ml = e['minlength']
+        if ml is None:
+            out.append((e['node'], False, 'bincount without the accumulator length: shorter count arrays cannot be added to the accumulator'))
+            continue
+        b = ml.bin
+        ok = None
+        if b is not None and b[0] == '+' and edges is not None and edges.symlen is not None:
+            for L, c in ((b[1], b[2]), (b[2], b[1])):
+                if L is not None and L.lenof is not None and L.lenof.symlen == edges.symlen and has_const(c):
+                    ok = cval(c) == 1
+        out.append((e['node'], ok, 'bincount padded to len(edges) + 1 (bins 0..len(edges))' if ok else
+                    ('the accumulator length is not len(edges) + 1: np.digitize yields indices up to len(edges), the last distance bin is lost or '
+                     'arrays of different length are added' if ok is False else 'accumulator length not derivable')))
+    out.append(('accumulator length', True if all(o[1] for o in out) else None, 'every count array has the length len(edges) + 1'))
+    return out
+
+
+def _xy_on_values(ctx, fi):
+    itf = ctx.entry(fi.qualname)
+    digs = uniq_events(itf, {'digitize'}, under(fi.qualname))
+    edges = digs[0]['bins'] if digs else None
+    out = []
+    for e in itf.events:
+        if e['tag'] != 'construct' or not e['cls'].endswith('.RDFData') or not under(fi.qualname)(e):
+            continue
+        if any(o[0] is e['node'] for o in out):
+            continue
+        x, y = e['kwargs'].get('x'), e['kwargs'].get('y')
+        if x is None or y is None or edges is None:
+            out.append((e['node'], None, 'x / y of the radial distribution not recognised'))
+            continue
+        sh = y.shifted
+        x_ok = x.symlen is not None and x.symlen == edges.symlen
+        if sh is not None and (sh[0], sh[3]) == (0, 1) and x_ok:
+            out.append((e['node'], True, 'overflow bin dropped: len(y) = len(bins) = len(x)'))
+        elif sh is not None and (sh[0], sh[3]) == (1, 0):
+            out.append((e['node'], False, 'the first bin is dropped instead of the overflow bin: y is shifted by one bin against x and contains distances > max_dist'))
+        else:
+            out.append((e['node'], None, 'x / y of the radial distribution not recognised'))
+    if not out:
+        out.append(('RDFData', None, 'construction of the radial distribution data not found'))
+    return out
+
+
 def _len_text(sl):
     if sl is None:
         return '?'
@@ -331,6 +417,41 @@ def _len_text(sl):
     if sl[0] == 'arange':
         return f'len({sl[1]})'
     return str(sl[1])
+
+
+def _nosite_plus_range(it, node, fnode):
+    """The value is the sequence -1, 0, 1, ..., len(unique_labels) - 1, however it is spelled ([-1] + list(range(n)), [-1, *range(n)])."""
+    def parts(v, depth=0):
+        if v is None or depth > 4:
+            return [None]
+        if v.concat is not None:
+            return parts(v.concat[0], depth + 1) + parts(v.concat[1], depth + 1)
+        if v.parts is not None:
+            out = []
+            for kind, x in v.parts:
+                out += [('elt', x)] if kind == 'elt' else parts(x, depth + 1)
+            return out
+        if v.elts is not None:
+            return [('elt', e) for e in v.elts]
+        if v.ty == 'range':
+            return [('range', v)]
+        if v.ty in ('list', 'tuple') and v.of is not None and v.of.ty == 'range':
+            return [('range', v.of)]
+        return [None]
+    ps = parts(it.cur(node))
+    if None in ps or len(ps) != 2:
+        return False
+    (k0, v0), (k1, v1) = ps
+    if k0 != 'elt' or not (has_const(v0) and cval(v0) == -1) or k1 != 'range':
+        return False
+    stop = v1.stop
+    if stop is None or stop.lenof is None:
+        return False
+    want = {'len(unique_labels)'}
+    for nm in ast.walk(fnode):
+        if isinstance(nm, ast.Name) and nm.id == 'unique_labels' and isinstance(nm.ctx, ast.Load):
+            want.add(f'len({it.sx(nm)})'.replace(' ', ''))
+    return (stop.sx or '').replace(' ', '') in want
 
 
 def check_distances(ctx):
